@@ -499,10 +499,21 @@ def run(ctx):
         for o in sub.obligations:
             if o.rule in rules:
                 ctx.ob("C01.R7", o.where, o.ok, o.what, key=o.key, loc=o.loc, detail=o.detail)
+    from . import C02, C05, C16
+    C02.position_adapters(ctx, "C01.R7")       # Slicing / Indexing put the object back where parse took it
+    C05.probe_specificity(ctx, "C01.R7")       # lazy wrappers skip by a probe that is as specific as the class's size
+    sub = _Ctx("C16", ctx.tier, ctx.root, model=ctx.model)
+    sub._summ = summariser(ctx)
+    C16.run(sub)
+    for e in sub.errors:
+        ctx.error("shared C16 rules: " + e)
+    for o in sub.obligations:
+        if o.rule in ("C16.R1", "C16.R2", "C16.R6"):
+            ctx.ob("C01.R7", o.where, o.ok, o.what, key=o.key, loc=o.loc, detail=o.detail)
     ctx.floor("C01.R7", 23 + 60)
     # ---------------------------------------------------------------- R8 the compiled form of every construct class (shared with C04.R3/R7/R8)
     from . import C04
-    C04.shared_obligations(ctx, "C01.R8", None)
+    C04.shared_obligations(ctx, "C01.R8", None, with_expressions=True)
     ctx.floor("C01.R8", 100)
 
     # positive control: chain with a dropped swap in build
